@@ -6,7 +6,6 @@ use crate::engine::*;
 use crate::exec;
 use crate::model::crypto::*;
 use crate::model::verify::*;
-use crate::types::*;
 use proptest::prelude::*;
 use scratchstack_aws_signature::canonical::CanonicalRequest;
 use scratchstack_aws_signature::{GetSigningKeyRequest, GetSigningKeyResponse, KSecretKey, SignatureOptions, NO_ADDITIONAL_SIGNED_HEADERS};
@@ -27,6 +26,30 @@ pub struct PlanLeak {
     pub plan: crate::gen::Plan,
     /// how the presented signature is spoiled: 0 correct, 1 one digit, 2 non-hex, 3 upper-case wrong, 4 too long, 5 too short, 6 empty
     pub spoil: u8,
+}
+
+#[derive(Clone, Debug, Serialize, Deserialize)]
+pub struct Burst {
+    pub leak: PlanLeak,
+    pub times: u16,
+}
+
+static BURST_LOCK: std::sync::Mutex<()> = std::sync::Mutex::new(());
+
+/// A client stuck in a retry loop: the very same request presented many times in a row, with no other
+/// validation in between anywhere in the process (the bursts of all worker threads are serialised).
+pub fn check_burst(b: &Burst, cc: &mut CaseCtx) -> CheckResult {
+    let _guard = BURST_LOCK.lock().unwrap_or_else(|e| e.into_inner());
+    let mut scratch = CaseCtx::default();
+    for i in 0..b.times {
+        check_plan_leak(&b.leak, if i == 0 { &mut *cc } else { &mut scratch }).map_err(|f| Failure::new(&format!("{}:repeated-presentation", f.sig), format!("{} (presentation {} of {} of the same request)", f.msg, i + 1, b.times)))?;
+    }
+    cc.class(match b.times {
+        0..=9 => "2-9-times",
+        10..=40 => "10-40-times",
+        _ => "over-40-times",
+    });
+    Ok(())
 }
 
 /// The same search over the full request generator: every region / service name of the dictionary (incl. "s3"),
@@ -104,6 +127,17 @@ pub fn subs() -> Vec<Box<dyn AnySub>> {
             thorough: 250_000,
             strat: || (crate::gen::plan(crate::gen::PlanOpts { plain_spelling: true, ..crate::gen::PlanOpts::default() }), 0u8..7).prop_map(|(plan, spoil)| PlanLeak { plan, spoil }).boxed(),
             check: check_plan_leak,
+        }),
+        Box::new(Sub {
+            name: "same-request-many-times-in-a-row",
+            quick: 700,
+            thorough: 15_000,
+            strat: || {
+                (crate::gen::plan(crate::gen::PlanOpts { plain_spelling: true, ..crate::gen::quiet_opts() }), 1u8..7, prop_oneof![3 => 2u16..13, 2 => 13u16..41, 1 => Just(101u16), 1 => Just(65u16)])
+                    .prop_map(|(plan, spoil, times)| Burst { leak: PlanLeak { plan, spoil }, times })
+                    .boxed()
+            },
+            check: check_burst,
         }),
         Box::new(Sub {
         name: "leaks",
